@@ -84,9 +84,11 @@ def rec_types(job):
 
 
 def _strip_label(d):
+    # label metadata is what store_labels adds to the tokens of reference links and images; on any other token a
+    # "label" entry is a change to that token
     if isinstance(d, dict):
         m = d.get("meta")
-        if isinstance(m, dict) and "label" in m:
+        if isinstance(m, dict) and "label" in m and d.get("type") in ("link_open", "image"):
             d = dict(d, meta={k: v for k, v in m.items() if k != "label"})
         if d.get("children"):
             d = dict(d, children=[_strip_label(c) for c in d["children"]])
@@ -100,7 +102,7 @@ def side(md, doc):
     out = []
     for t in toks:
         r = A.tok(t)
-        meta0 = {k: v for k, v in t.meta.items() if k != "label"}
+        meta0 = {k: v for k, v in t.meta.items() if not (k == "label" and t.type in ("link_open", "image"))}
         r["me0"] = A.jstr(meta0)
         r["kids0"] = A.jstr([_strip_label(c.as_dict()) for c in t.children]) if t.children is not None else "null"
         out.append(r)
